@@ -586,7 +586,9 @@ func (e *Env) SketchEstimates() (series, tombSeries, meas int64, err error) {
 	return int64(ss.Count()), int64(ts.Count()), mc, nil
 }
 
-// DeletedIDs returns the ids counted by the shards' indexes although the series file has them deleted.
+// DeletedIDs returns the ids counted by the shards' indexes although the series
+// file has them deleted AND can no longer resolve their key (the precondition
+// of the log-replay defect: see replayClass).
 func (e *Env) DeletedIDs(shards []uint64) map[uint64]struct{} {
 	out := map[uint64]struct{}{}
 	for _, id := range shards {
@@ -603,12 +605,46 @@ func (e *Env) DeletedIDs(shards []uint64) map[uint64]struct{} {
 			continue
 		}
 		idx.SeriesIDSet().ForEach(func(sid uint64) {
-			if sf.IsDeleted(sid) {
+			if sf.IsDeleted(sid) && len(sf.SeriesKey(sid)) == 0 {
 				out[sid] = struct{}{}
 			}
 		})
 	}
 	return out
+}
+
+// PhantomInMeasurement reports whether some shard's tsi1 index counts, under the
+// measurement, a series id that the series file has deleted and cannot resolve
+// any more (the id resurrected by the log-replay defect, see replayClass).
+func (e *Env) PhantomInMeasurement(shards []uint64, name string) bool {
+	for _, id := range shards {
+		t := e.tsi(id)
+		if t == nil {
+			continue
+		}
+		sf := t.SeriesFile()
+		set := t.SeriesIDSet()
+		itr, err := t.MeasurementSeriesIDIterator([]byte(name))
+		if err != nil || itr == nil {
+			continue
+		}
+		found := false
+		for {
+			el, err := itr.Next()
+			if err != nil || el.SeriesID == 0 {
+				break
+			}
+			if set.Contains(el.SeriesID) && sf.IsDeleted(el.SeriesID) && len(sf.SeriesKey(el.SeriesID)) == 0 {
+				found = true
+				break
+			}
+		}
+		itr.Close()
+		if found {
+			return true
+		}
+	}
+	return false
 }
 
 // SeriesIDDetail lists the series ids a shard's index counts, resolved through the series file.
